@@ -209,7 +209,16 @@ fn restate(tr: &mut Tr, rd: &mut TRd, path: &[POp]) -> bool {
 pub fn images(rng: &mut SmallRng, cfg: &RCfg, n: usize) -> Vec<Vec<u8>> {
     let nbytes = (cfg.w / 8) * 12;
     let nbytes = nbytes.div_ceil(8) * 8;
-    let mut v = vec![vec![0xFFu8; nbytes]];
+    // first a dense random image (every word different: misplaced reads and stale bits both show),
+    // then all ones (missing bits show), then the other characters
+    let mut first: Vec<u8> = (0..nbytes).map(|_| rng.random()).collect();
+    if let Some(l) = first.last_mut() {
+        *l |= 0x81;
+    }
+    let mut v = vec![first];
+    if n >= 2 {
+        v.push(vec![0xFFu8; nbytes]);
+    }
     while v.len() < n {
         v.push(rand_image(rng, nbytes));
     }
